@@ -126,6 +126,8 @@ def run(rep, tier, seed, proof_ok):
                                        "actions": sum(r.get("n_actions", 0) for r in results)}
     import c01_targeted
     c01_targeted.run(rep, tier, seed, proof_ok)
+    import c01_syntax
+    c01_syntax.run(rep, tier, seed, proof_ok)
 
 
 def replay(path):
